@@ -37,7 +37,7 @@ def run_case(cs):
     rng = cs.rng
     tree = world.gen_tree(rng, max_files=7, max_dirs=rng.choice([0, 2, 3]), min_files=1, classes=["plain", "plain", "space", "uni", "xml"])
     d = cs.dir()
-    root = os.path.join(d, "R" + world.gen_name(rng, rng.choice(["plain", "space"]), ext=False))
+    root = os.path.join(d, world.root_name(rng))
     dest = os.path.join(d, "dest")
     world.write_tree(root, tree)
     original = {k: v for k, v in tree.items() if v is not None}
